@@ -23,7 +23,7 @@ CHECKS = {
  "C06": ("exploration", "property-based testing and bounded-exhaustive enumeration with a metamorphic resynchronisation relation (records(A+nl+B) = records(A)++records(B)), totality invariants, and agreement of every iterator adaptor and of section()/clone() with plain iteration; inputs beyond 2^31 and 2^32 bytes; libFuzzer stage in thorough",
    "Generated-input search over byte strings, token soups, hostile mutants, corpus cuts and all short strings over a 9-symbol alphabet; thorough adds a coverage-guided libFuzzer campaign with the same oracle in-target.",
    "Phantom error items for blank trailing input are normalised away (documented in DESIGN.md).", "DESIGN.md §4 C06"),
- "C07": ("exploration", "property-based testing (proptest): per-line model composed from the public single-line API, reference-model expectation for AST-kinded texts, conservation and identity relations, mapper==cache",
+ "C07": ("exploration", "property-based testing (proptest): per-line model composed from the public single-line API, reference-model expectation for AST-kinded texts, conservation and identity relations, mapper==cache; correlated lines (the same frame repeated in other spellings); libFuzzer stage in thorough (text fuzzed against the composition oracle)",
    "Generated-input search over mappings x decorated trace texts; output must equal the per-line rule of the statement.",
    "Single-line parsers/printers are trusted here and covered by C17/C01.", "DESIGN.md §4 C07"),
  "C08": ("exploration", "property-based testing (proptest): structural preservation oracle built from single-element lookups, typed<->text agreement on canonical traces",
@@ -53,7 +53,7 @@ CHECKS = {
  "C16": ("exploration", "property-based testing (proptest) from descriptor ASTs, bounded-exhaustive small descriptors, precise unterminated variants, single-edit corruptions, mapper==cache",
    "Generated and bounded-exhaustive search over the descriptor language; expected rendering computed from the AST and the reference class table.",
    "exhaustive=true refers to the 1813 small descriptors only.", "DESIGN.md §4 C16"),
- "C17": ("exploration", "property-based round-trip testing (proptest): try_parse(print(T)) == T and print idempotence",
+ "C17": ("exploration", "property-based round-trip testing (proptest): try_parse(print(T)) == T and print idempotence; libFuzzer stage in thorough (from the text side: whatever parses into the domain must survive print -> parse -> print)",
    "Generated-input search over typed traces, frames and throwables in the statement's domain.",
    "Domain predicate taken from the statement.", "DESIGN.md §4 C17"),
  "C18": ("exploration", "property-based testing (proptest) against an independent SHA-1/UUIDv5 implementation; LF/CRLF metamorphic check; cross-process equality; stateful API sequences (in-place and permutation edits of one buffer, section()/clone() after uuid(), also on 17..130 MiB buffers incl. a new buffer at the address of a freed one); children under varied environments",
@@ -99,8 +99,8 @@ def main():
         "engines": [
             {"name": "pgverif", "path": "/verif/harness", "serves_properties": [c["property_id"] for c in checks],
              "kind_free_text": "Rust harness: proptest-driven generators with shrinking, reference models, differential/metamorphic/round-trip oracles, bounded-exhaustive enumerations, fault enumeration; evidence and replay writer"},
-            {"name": "libfuzzer", "path": "/verif/fuzz", "serves_properties": ["C06", "C12", "C13"],
-             "kind_free_text": "cargo-fuzz / libFuzzer targets with the semantic oracle inside the target; used by the thorough tier of C06, C12, C13"},
+            {"name": "libfuzzer", "path": "/verif/fuzz", "serves_properties": ["C06", "C07", "C12", "C13", "C17"],
+             "kind_free_text": "cargo-fuzz / libFuzzer targets with the semantic oracle inside the target; used by the thorough tier of C06, C07, C12, C13, C17"},
         ],
         "checks": checks,
         "not_applicable": [{"property_id": p, "reason": PENDING_REASON} for p in ALL if p not in CHECKS],
